@@ -60,7 +60,7 @@ ASSUMPTIONS = [
     "expressions are colourized as pydoctor does it: the node has no expression parent (top level of a default, annotation, decorator, base, constant value)",
     "re.compile(...) calls are outside the model (regex colourizer); they are not generated",
     "what is delegated to astor outside comparison/conditional expressions over names and operators is an opaque leaf: the model is given astor's text; that the text is self-delimiting is checked only by the direct oracle (CPython re-parse)",
-    "float/complex constants: the model is given str(value); numeric formatting is judged by the oracle through the parsed value",
+    "float/complex constants: the model is given str(value) and applies the inf -> 1e309 replacement itself; numeric formatting is judged by the oracle through the parsed value",
     "lone surrogates in string constants are checked by the direct oracle only (they cannot travel to the Lean model)",
     "PyvalColorizer.LINEWRAP is a shared docutils node that _trim_result can mutate (only reachable with linebreakok=False and a line length, a configuration pydoctor does not use); the harness restores it before every call in that configuration and counts the event",
 ]
@@ -484,7 +484,13 @@ def classify(src: str, cfg: Tuple[int, int, bool], verdict: str) -> str:
                 sig = _MIN_CACHE[k2]
                 break
             continue
-        v, _, _ = readback(u, cfg)
+        # a literal leaf is spelled differently with and without line breaks: try it both ways
+        cfgs = [cfg] + ([(0, 1, False), (0, 0, True)] if isinstance(n, ast.Constant) else [])
+        v = "ok"
+        for c2 in cfgs:
+            v, _, _ = readback(u, c2)
+            if v in ("syntax", "differs") or v.startswith("raise:"):
+                break
         if v in ("syntax", "differs") or v.startswith("raise:"):
             sig = classify_root(ast.parse(u, mode="eval").body, v)
             _MIN_CACHE[k2] = sig
@@ -658,7 +664,7 @@ def gen_chain3(ctx: Ctx) -> Iterable[str]:
 
 
 HUGE_OK = "0x" + "f" * 3570          # 4299 decimal digits
-HUGE_BAD = "0x1" + "0" * 3580        # 4311 decimal digits: str(int) raises
+HUGE_BAD = "0x1" + "0" * 3580        # 4311 decimal digits: str(int) raises, the colorizer falls back to hex()
 
 LEAVES: List[Tuple[str, str]] = [
     ("int", "0"), ("int", "1"), ("int", "255"), ("int", "0x10"), ("int", "0o17"), ("int", "0b101"), ("int", "1_000"),
